@@ -11,7 +11,8 @@ pydicom.config.settings.reading_validation_mode = pydicom.config.IGNORE   # UID(
 
 ASSUMPTIONS = [
     'application entity = a real applicationentity.AE object without its TCP server part (AEBase.__init__, real '
-    'add_scu / add_scp / copy_context_def_list); requester built without provider thread, the reply is scripted',
+    'add_scu / add_scp / copy_context_def_list); requesters are built by the real AssociationRequester constructor with '
+    'asceprovider.dulprovider replaced by a scripted recorder (no provider thread); the reply is scripted',
     'the SOP-class lists of successive add_* calls are disjoint (each class configured once)',
     'replies are conformant: one presentation-context AC item per proposed context, same ids',
 ]
@@ -102,7 +103,8 @@ def reply_for(rq, results, tsi):
 
 
 def run_request(ae, mx, results, tsi):
-    rqr = A.make_requester(ae, mx, REMOTE)
+    A.patch_provider([])
+    rqr = asceprovider.AssociationRequester(ae, mx, REMOTE)     # the real constructor; provider = scripted recorder
     state = {}
 
     def receive(timeout):
@@ -195,6 +197,27 @@ def reply_processing(r0: int, a1: bool, a2: bool, a3: bool, t0: int, t1: int, t2
     return ok
 
 
+@cond(bounds='two associations in a row requested by one entity (fixed configuration add_scu([c1, c2])): in the first '
+             'the peer accepts both contexts, in the second the results are symbolic (0..4 for c1, accept / reject for '
+             'c2) - what is usable in the second association follows from the second reply only', timeout=240)
+def reply_sequence(r0: int, a1: bool, t0: int, t1: int) -> bool:
+    """
+    pre: 0 <= r0 <= 4 and 0 <= t0 <= 1 and 0 <= t1 <= 1
+    post: _
+    """
+    ae = new_ae('LOCAL_AE', TSU[:2], 16384)
+    classes = configure(ae, [2], [0])
+    first, rq1 = run_request(ae, 16384, (0, 0), (1, 0))
+    ok1, n1 = usable_ok(first, rq1, classes, (0, 0), (1, 0))
+    results = (pick(r0, 0, 4), 0 if a1 else 2)
+    tsi = (pick(t0, 0, 1), pick(t1, 0, 1))
+    second, rq2 = run_request(ae, 16384, results, tsi)
+    ok2, n2 = usable_ok(second, rq2, classes, results, tsi)
+    ok = ok1 and n1 == 2 and ok2 and proposal_ok(rq2, ae, classes, 16384)
+    deep(ok and n2 == 0)
+    return ok
+
+
 def _nm():
     return 3 if tier() == 'thorough' else 2
 
@@ -220,7 +243,8 @@ def propose_many(n: int, scp: bool) -> bool:
     n = pick(n, 124, 132)
     ae = new_ae('LOCAL_AE', TSU[:1], 16384)
     classes = configure(ae, [n], [1 if scp else 0])
-    rqr = A.make_requester(ae, 16384, REMOTE)
+    A.patch_provider([])
+    rqr = asceprovider.AssociationRequester(ae, 16384, REMOTE)
     try:
         rqr._request(ae.local_ae, REMOTE, users_pdu=[])
     except exceptions.DCMTimeoutError:
